@@ -125,11 +125,11 @@ class Plan:
                 continue
             v = getattr(regs, name)
             if isinstance(v, AbstractRegister):
-                self.objs.append(v)
+                self.objs.append(name)
                 obj_names.append(name)
             elif isinstance(v, list):
                 isreg = bool(v) and isinstance(v[0], AbstractRegister)
-                self.lists.append((v, isreg))
+                self.lists.append((name, isreg))
                 list_names += ["%s[%d]" % (name, i) for i in range(len(v))]
             elif isinstance(v, (int, bool)) or v is None:
                 self.plain.append(name)
@@ -150,8 +150,9 @@ class Plan:
         d = self.regs_dict
         out = [R[k] for k in self.rkeys]
         out += [d[n] for n in self.plain]
-        out += [o.value for o in self.objs]
-        for lst, isreg in self.lists:
+        out += [d[n].value for n in self.objs]
+        for lname, isreg in self.lists:
+            lst = d[lname]
             if isreg:
                 out += [o.value for o in lst]
             else:
@@ -188,10 +189,11 @@ class Plan:
         for n in self.plain:
             d[n] = regs[i]
             i += 1
-        for o in self.objs:
-            o.value = regs[i]
+        for n in self.objs:
+            d[n].value = regs[i]
             i += 1
-        for lst, isreg in self.lists:
+        for lname, isreg in self.lists:
+            lst = d[lname]
             if isreg:
                 for o in lst:
                     o.value = regs[i]
